@@ -425,7 +425,10 @@ struct UnsafeFinder<'tcx> { tcx: TyCtxt<'tcx>, found: Vec<String> }
 impl<'tcx> rustc_hir::intravisit::Visitor<'tcx> for UnsafeFinder<'tcx> {
     fn visit_block(&mut self, b: &'tcx rustc_hir::Block<'tcx>) {
         if let rustc_hir::BlockCheckMode::UnsafeBlock(src) = b.rules {
-            if matches!(src, rustc_hir::UnsafeSource::UserProvided) {
+            // unsafe blocks produced by another crate's macro (tokio::select!, pin!) are that crate's code:
+            // `forbid(unsafe_code)` does not apply to them either
+            let foreign_macro = b.span.from_expansion() && b.span.macro_backtrace().last().and_then(|bt| bt.macro_def_id).map(|d| !d.is_local()).unwrap_or(false);
+            if matches!(src, rustc_hir::UnsafeSource::UserProvided) && !foreign_macro {
                 let sm = self.tcx.sess.source_map();
                 let lo = sm.lookup_char_pos(b.span.source_callsite().lo());
                 self.found.push(format!("{}:{}", lo.file.name.prefer_remapped_unconditionally(), lo.line));
